@@ -219,3 +219,10 @@ def run(P, R, tier):
         if P.func(k_, required=False) is not None:
             n_dt += _dt.check_function(P, R, k_, raw_attrs=("n", "sum_px", "sum_pxx"))
     R.floor("DTYPE.raw sites (enrolment kernels)", n_dt, 5)
+    from ..engines import opt as _opt
+    n_opt = 0
+    for name in ['_compute_fn_x_ih', '_compute_fn_y_i', '_compute_fn_z_i', '_compute_latent_x_per_class', '_latent_y_per_class', '_latent_z_per_class', 'compute_latent_x', 'update_y', 'update_z', 'update_x', 'compute_accumulators_U', 'compute_accumulators_V', 'compute_accumulators_D', '_compute_fn_x', 'estimate_x']:
+        k_ = "factor_analysis:FactorAnalysisBase." + name
+        if P.func(k_, required=False) is not None:
+            n_opt += _opt.check_function(P, R, k_)
+    R.floor("OPT optional-factor selections", n_opt, 6)
